@@ -22,6 +22,7 @@ func genReply(r *sim.Rng) LReply {
 		if r.Bool(0.3) {
 			rep.Comments = nil
 		}
+		addSigs(r, &rep)
 		return rep
 	case 1:
 		return LReply{Kind: "rpc_error", Code: pick(r, rpcCodes)}
@@ -31,6 +32,15 @@ func genReply(r *sim.Rng) LReply {
 		return LReply{Kind: "empty"}
 	}
 	return LReply{Kind: "stall"}
+}
+
+// addSigs lets a CA sign the certificates of one reply with different keys / signature formats.
+func addSigs(r *sim.Rng, rep *LReply) {
+	if rep.NCerts >= 2 && r.Bool(0.4) {
+		for i := 0; i < rep.NCerts; i++ {
+			rep.CASigs = append(rep.CASigs, pick(r, []string{"", "rsa-sha1", "rsa-sha1", "rsa-sha2-256", "rsa-sha2-512", "ecdsa"}))
+		}
+	}
 }
 
 func genL(prop string) func(r *sim.Rng, tier string) any {
@@ -50,8 +60,9 @@ func genL(prop string) func(r *sim.Rng, tier string) any {
 				p.Cfg.Bundle = append(p.Cfg.Bundle, []int{i})
 			}
 		}
-		if r.Bool(0.07) {
-			p.Cfg.ParentSec = pick(r, []int{1, 7, 20})
+		if r.Bool(0.1) {
+			// short parent deadlines, and a context that is already over when Sign is called
+			p.Cfg.ParentSec = pick(r, []int{1, 7, 20, 0, 0})
 		}
 		p.Cfg.ClientChain = r.Bool(0.3)
 		if r.Bool(0.3) {
@@ -62,6 +73,7 @@ func genL(prop string) func(r *sim.Rng, tier string) any {
 				}
 			}
 			p.Cfg.SiblingFirst = r.Bool(0.5)
+			p.Cfg.SiblingDials = r.Bool(0.5)
 		}
 		n := r.Weighted([]int{6, 25, 30, 25, 14})
 		if n == 0 && r.Bool(0.5) {
@@ -79,7 +91,7 @@ func genL(prop string) func(r *sim.Rng, tier string) any {
 				e.Name = fmt.Sprintf("passthrough:///ca%d.sim", i)
 			}
 			if r.Bool(impostorRate) {
-				e.Identity = pick(r, []string{"other_ca", "self_signed", "expired", "just_expired", "not_yet", "wrong_name"})
+				e.Identity = pick(r, []string{"other_ca", "self_signed", "expired", "just_expired", "not_yet", "wrong_name", "client_ca"})
 				if len(p.Cfg.Sibling) > 0 && r.Bool(0.5) {
 					e.Identity, e.CA = "sibling_ca", pick(r, p.Cfg.Sibling)
 				}
@@ -102,6 +114,7 @@ func genL(prop string) func(r *sim.Rng, tier string) any {
 					for k := 0; k < rep.NCerts; k++ {
 						rep.Comments = append(rep.Comments, pick(r, []string{"", "touch", "cmt"}))
 					}
+					addSigs(r, &rep)
 				}
 				e.Script = append(e.Script, rep)
 			}
